@@ -75,6 +75,16 @@ func VerifC12_ServiceForeignPrice() {
 		verifAssert(f1 == f2 && o1.Equals(o2), "every provider keeps its owner after re-import")
 		verifAssert(verifDeepEqual(e.k.GetPricing(e.ctx, svService, p), e2.k.GetPricing(e2.ctx, svService, p)), "every binding keeps its pricing after re-import")
 	}
+	// the owner's providers (the index withdrawals by the owner walk)
+	listProviders := func(x *svEnv) (ps []string) {
+		it := x.k.OwnerProvidersIterator(x.ctx, x.owner)
+		defer it.Close()
+		for ; it.Valid(); it.Next() {
+			ps = append(ps, string(it.Key()))
+		}
+		return
+	}
+	verifAssert(verifDeepEqual(listProviders(e), listProviders(e2)), "the owner's providers are listed identically after re-import")
 	verifAssert(verifDeepEqual(e.k.GetParams(e.ctx), e2.k.GetParams(e2.ctx)), "the params answer identically after re-import")
 	g2 := ExportGenesis(e2.ctx, e2.k)
 	verifAssert(verifDeepEqual(*g, *g2), "a second export equals the first")
